@@ -7,6 +7,17 @@ COMMON_TB = [
 ]
 
 PROPS = {
+    "C15": {
+        "trusted_base": COMMON_TB + [
+            "modelled, not verified: octseq::Parser (as buffer + position), chrono's timestamp_opt acceptance rule (validated differentially), String::from_utf8_lossy (only ASCII-ness is observed)",
+        ],
+        "assumptions": [
+            "the embedded UPDATE of a RouteMonitoring message is decoded by UpdateMessage::parse (properties C01/C02); here only that bgp_update() agrees with decoding the same bytes on their own is checked (oracle)",
+            "session_config()/pph_session_config()/supported_protocols() of PeerUp are covered by C12/C03 (capability accessors), not here",
+        ],
+        "rule": "7 message types x {valid from a type-directed generator with embedded OPEN pairs / NOTIFICATIONs / UPDATEs / statistics of all 18 defined types + unknown ones / TLV lists / termination reasons; 1 mutation; 2-4 mutations; random bytes} (mutations: bit flips, truncation, extension, header-length edits to 0/3/5/6/max/+-, type byte edits, byte insert/delete); corpus of past failures first. non-trivial = accepted by from_octets (every accessor group then runs) - distinct request lines counted",
+        "partial": "faithfulness theorems are proved per accessor against the reference encoder for the per-peer header, statistics, TLVs, termination and peer-down fields; the embedded BGP PDUs are returned byte for byte (theorem) and their *decoding* is C01/C03's subject",
+    },
     "C18": {
         "pre": [["python3", "tools/gen_codepoints.py", "/repo", "lean/Rc/Gen/Codepoints.lean", "work/codepoint_fingerprints.json"]],
         "trusted_base": COMMON_TB + [
